@@ -603,7 +603,9 @@ class WebSocketApp:
             )
             reason = close_frame.data[2:]
             if isinstance(reason, bytes):
-                reason = reason.decode("utf-8")
+                # With skip_utf8_validation the reason may be ill-formed UTF-8;
+                # that must not keep on_close from being called.
+                reason = reason.decode("utf-8", errors="replace")
             return [close_status_code, reason]
         else:
             # Most likely reached this because len(close_frame_data.data) < 2
